@@ -240,7 +240,7 @@ fn lexeme_soup(rng: &mut Rng) -> TextItem {
 
 /// One generated input text, a pure function of the PRNG state.
 pub fn ambient_text(rng: &mut Rng) -> TextItem {
-    match rng.weighted(&[20, 12, 16, 34, 10, 8, 5, 3, 7]) {
+    match rng.weighted(&[20, 12, 16, 34, 10, 8, 5, 6, 7]) {
         8 => lexeme_soup(rng),
         7 => {
             // many independent conflicts in a machine of hundreds of states (which conflict is
